@@ -11,7 +11,7 @@ Local Close Scope Q_scope.
 (* ================================================================ reach *)
 Lemma reach_In v id : In id (reach v) <-> In (Some id) (leaves (vdata v)).
 Proof.
-  unfold reach, pop_ids. rewrite in_flat_map. split.
+  unfold reach. rewrite in_flat_map. split.
   - intros [[i|] [H1 H2]]; simpl in H2; [destruct H2 as [<-|[]]; exact H1 | destruct H2].
   - intros H. exists (Some id). split; [exact H | simpl; auto].
 Qed.
@@ -172,35 +172,41 @@ Proof.
   - unfold inb in H. destruct ((0 <=? i)%Z && (i <? Z.of_nat n)%Z) eqn:E; [|discriminate]. inversion H.
     constructor; [lia|constructor].
   - destruct (slice_list n a b st) as [zs|] eqn:Es; [|discriminate]. inversion H; subst. clear H.
-    unfold slice_list in Es. destruct ((match st with Some z => z | None => 1%Z end =? 0)%Z) eqn:E0; [discriminate|].
-    inversion Es; subst. clear Es. apply Forall_forall. intros k Hk.
+    unfold slice_list in Es. cbv zeta in Es.
+    remember (match st with Some z => z | None => 1%Z end) as step eqn:Estep. clear Estep.
+    destruct (step =? 0)%Z eqn:E0; [discriminate|]. apply Z.eqb_neq in E0.
+    inversion Es; subst zs. clear Es. apply Forall_forall. intros k Hk.
     apply in_map_iff in Hk. destruct Hk as [z [<- Hz]]. apply in_map_iff in Hz. destruct Hz as [j [<- Hj]].
     apply in_seq in Hj. revert Hj.
-    set (step := match st with Some z => z | None => 1%Z end) in *.
-    set (len := Z.of_nat n).
-    set (neg := (step <? 0)%Z).
-    set (lower := if neg then (-1)%Z else 0%Z).
-    set (upper := if neg then (len - 1)%Z else len).
-    set (start := match a with Some x => clampi len lower upper x | None => if neg then upper else lower end).
-    set (stop := match b with Some x => clampi len lower upper x | None => if neg then lower else upper end).
-    assert (Hstart : (lower <= start <= upper)%Z).
-    { subst start. destruct a as [x|]; [unfold clampi; destruct (x <? 0)%Z|]; subst lower upper; destruct neg; lia. }
-    assert (Hstop : (lower <= stop <= upper)%Z).
-    { subst stop. destruct b as [x|]; [unfold clampi; destruct (x <? 0)%Z|]; subst lower upper; destruct neg; lia. }
-    assert (Hs0 : step <> 0%Z) by (apply Z.eqb_neq; exact E0).
-    intros Hj. subst lower upper. destruct neg eqn:En; subst neg.
+    destruct (step <? 0)%Z eqn:En.
     + apply Z.ltb_lt in En.
+      remember (match a with Some x => clampi (Z.of_nat n) (-1) (Z.of_nat n - 1) x | None => (Z.of_nat n - 1)%Z end)
+        as start eqn:Est.
+      remember (match b with Some x => clampi (Z.of_nat n) (-1) (Z.of_nat n - 1) x | None => (-1)%Z end)
+        as stop eqn:Esp.
+      assert (Hstart : (-1 <= start <= Z.of_nat n - 1)%Z).
+      { subst start. destruct a as [x|]; [unfold clampi; destruct (Z.ltb_spec x 0)|]; lia. }
+      assert (Hstop : (-1 <= stop <= Z.of_nat n - 1)%Z).
+      { subst stop. destruct b as [x|]; [unfold clampi; destruct (Z.ltb_spec x 0)|]; lia. }
+      clear Est Esp. intros Hj.
       assert (Hc : (0 <= Z.of_nat j < (start - stop - step - 1) / (- step))%Z) by lia.
-      assert (Hq : (Z.of_nat j * (- step) < start - stop)%Z).
-      { assert (((start - stop - step - 1) / (- step)) * (- step) <= start - stop - step - 1)%Z
-          by (rewrite Z.mul_comm; apply Z.mul_div_le; lia). nia. }
-      lia.
+      assert (Hm : ((- step) * ((start - stop - step - 1) / (- step)) <= start - stop - step - 1)%Z)
+        by (apply Z.mul_div_le; lia).
+      assert (Hq : (Z.of_nat j * (- step) < start - stop)%Z) by nia.
+      nia.
     + apply Z.ltb_ge in En.
+      remember (match a with Some x => clampi (Z.of_nat n) 0 (Z.of_nat n) x | None => 0%Z end) as start eqn:Est.
+      remember (match b with Some x => clampi (Z.of_nat n) 0 (Z.of_nat n) x | None => Z.of_nat n end) as stop eqn:Esp.
+      assert (Hstart : (0 <= start <= Z.of_nat n)%Z).
+      { subst start. destruct a as [x|]; [unfold clampi; destruct (Z.ltb_spec x 0)|]; lia. }
+      assert (Hstop : (0 <= stop <= Z.of_nat n)%Z).
+      { subst stop. destruct b as [x|]; [unfold clampi; destruct (Z.ltb_spec x 0)|]; lia. }
+      clear Est Esp. intros Hj.
       assert (Hc : (0 <= Z.of_nat j < (stop - start + step - 1) / step)%Z) by lia.
-      assert (Hq : (Z.of_nat j * step < stop - start)%Z).
-      { assert (((stop - start + step - 1) / step) * step <= stop - start + step - 1)%Z
-          by (rewrite Z.mul_comm; apply Z.mul_div_le; lia). nia. }
-      lia.
+      assert (Hm : (step * ((stop - start + step - 1) / step) <= stop - start + step - 1)%Z)
+        by (apply Z.mul_div_le; lia).
+      assert (Hq : (Z.of_nat j * step < stop - start)%Z) by nia.
+      nia.
   - destruct (forallb (inb n) js) eqn:E; [|discriminate]. inversion H; subst. clear H.
     rewrite forallb_forall in E. apply Forall_forall. intros k Hk. apply in_map_iff in Hk.
     destruct Hk as [z [<- Hz]]. specialize (E z Hz). unfold inb in E. lia.
@@ -352,7 +358,7 @@ Theorem fresh_disjoint_from_shape_hist ops shape nf fields units s' :
 Proof.
   intros H. destruct (fresh_disjoint_from_shape _ _ _ _ _ _ (hist_inv ops) H) as (w & E1 & E2 & Hn & Hm).
   exists w. repeat split; auto.
-  unfold reach, pop_ids. induction Hn as [|lf ls Hlf Hls IH]; simpl; [reflexivity|]. subst lf. exact IH.
+  unfold reach. induction Hn as [|lf ls Hlf Hls IH]; simpl; [reflexivity|]. subst lf. exact IH.
 Qed.
 
 Theorem fresh_disjoint_from_data_hist ops items nf fields units s' :
@@ -377,7 +383,7 @@ Theorem slice_addresses_cells_hist ops vi v idx s' :
     vshape w = map (@length nat) idxs /\ vfields w = vfields v /\ vunits w = vunits v /\
     forall o, Forall2 (fun k js => k < length js) o idxs ->
       exists lf, tget (vdata w) o = Some lf /\ tget (vdata v) (src_of idxs o) = Some lf.
-Proof. intros Hv H. apply slice_addresses_cells; auto. apply hist_inv. Qed.
+Proof. intros Hv H. apply (slice_addresses_cells (hist ops) vi v idx s' (hist_inv ops) Hv H). Qed.
 
 Theorem slice_succeeds_hist ops vi v idx raw idxs :
   nth_error (vecs (hist ops)) vi = Some v ->
